@@ -265,7 +265,7 @@ func init() {
 	u := ttOp{Op: "U"}
 	Defs["C17"] = &Def{
 		ID:   "C17",
-		Rule: "harness threads issue Write(tagged payload)/Read/Used on keys forced to collide (same hash; different hash same slot; 1-, 2- and 4-slot tables; equal/greater/smaller replacement value), with the non-atomic `used++` split into load and store by the rewriter. Quick: ALL interleavings of the 2-thread harnesses, deviation bound 4 for the 3-thread ones; thorough: ALL interleavings of every harness. Oracle per complete interleaving: each hit returns one single store's tuple for that hash; the call/return history is linearizable w.r.t. the sequential table incl. the replacement rule (brute force over <= 6 calls); fill fraction within [0,1] whenever read and, at quiescence, equal to the number of occupied slots. distinct_nontrivial = distinct call/return histories among executions in which two threads touched a common object",
+		Rule: "harness threads issue Write(tagged payload)/Read/Used on keys forced to collide (same hash; different hash same slot; 1-, 2- and 4-slot tables; equal/greater/smaller replacement value), with the non-atomic `used++` split into load and store by the rewriter. ALL interleavings of every harness (no bound); thorough adds 3x2-, crossing- and 4-thread harnesses explored to deviation bound 7. Oracle per complete interleaving: each hit returns one single store's tuple for that hash; the call/return history is linearizable w.r.t. the sequential table incl. the replacement rule (brute force over <= 6 calls); fill fraction within [0,1] whenever read and, at quiescence, equal to the number of occupied slots. distinct_nontrivial = distinct call/return histories among executions in which two threads touched a common object",
 		Gen: func(tier string) []explore.Scenario {
 			ps := []ttParams{
 				{32, [][]ttOp{{w(7, 1, 1, 1)}, {w(9, 1, 2, 2)}}},                                // two writers, one slot, second more valuable
@@ -280,6 +280,17 @@ func init() {
 				{32, [][]ttOp{{w(7, 1, 1, 1)}, {w(7, 1, 2, 2)}, {r(7), r(7)}}},                  // reader sees one of two stores of the same hash
 				{64, [][]ttOp{{w(0, 1, 1, 1)}, {w(1, 1, 1, 2)}, {w(2, 1, 3, 3)}}},               // three writers, two slots
 				{64, [][]ttOp{{w(0, 1, 1, 1)}, {w(1, 1, 1, 2)}, {u, r(0), r(1)}}},               // observer thread
+				{32, [][]ttOp{{w(7, 1, 1, 1)}, {w(9, 1, 2, 2)}, {r(7)}}},                        // reader of the key that gets replaced
+				{32, [][]ttOp{{w(7, 1, 1, 1)}, {w(9, 1, 1, 2)}, {r(7), r(9)}}},                  // equal value: each store replaces the other
+				{32, [][]ttOp{{w(7, 1, 1, 1), w(7, 1, 3, 3)}, {w(9, 1, 2, 2)}, {r(9), r(7)}}},   // 7 -> 9 -> 7 in one slot
+			}
+			if tier == "thorough" {
+				ps = append(ps,
+					ttParams{32, [][]ttOp{{w(7, 1, 1, 1), r(9)}, {w(9, 1, 2, 2), r(7)}, {w(7, 1, 3, 3), u}}},             // 3 threads x 2 ops, one slot
+					ttParams{64, [][]ttOp{{w(0, 1, 1, 1), w(1, 1, 1, 5)}, {w(1, 1, 2, 2), w(0, 1, 2, 6)}, {r(0), r(1)}}}, // crossing writers and a reader
+					ttParams{32, [][]ttOp{{w(7, 1, 1, 1)}, {w(9, 1, 2, 2)}, {w(11, 1, 3, 3)}, {r(11), u}}},               // four threads
+					ttParams{128, [][]ttOp{{w(0, 1, 1, 1)}, {w(1, 1, 1, 2)}, {w(2, 1, 1, 3)}, {w(3, 1, 1, 4)}}},          // four first writes: used must reach 4
+				)
 			}
 			var out []explore.Scenario
 			for _, p := range ps {
@@ -292,10 +303,14 @@ func init() {
 		Bound: func(tier string, sc explore.Scenario) int {
 			var p ttParams
 			_ = json.Unmarshal(sc.Spec.Params, &p)
-			if tier == "thorough" || len(p.Threads) == 2 {
-				return 1000 // unbounded: all interleavings
+			ops := 0
+			for _, th := range p.Threads {
+				ops += len(th)
 			}
-			return 4
+			if ops >= 6 || len(p.Threads) >= 4 {
+				return 7 // the large thorough-only harnesses: deviation bound instead of all interleavings
+			}
+			return 1000 // unbounded: all interleavings (the harnesses are small enough)
 		},
 	}
 }
